@@ -52,6 +52,10 @@ pub(crate) struct Plan {
     /// yields before the execution task of the k-th concurrently committed action starts
     pub delays: Vec<u64>,
     pub restart: bool,
+    /// follower path: how often the driver yields to the runtime after the k-th leader message (0 = the next
+    /// message is handled before any task spawned by this one has run)
+    #[serde(default)]
+    pub yields: Vec<u64>,
 }
 
 fn generate_follower(rng: &mut Rng) -> Plan {
@@ -87,7 +91,9 @@ fn generate_follower(rng: &mut Rng) -> Plan {
         }
     }
     let delays = (0..total).map(|_| rng.below(4)).collect();
-    Plan { follower: msgs, acts, delays, restart: rng.chance(1, 2) }
+    let eager = rng.chance(1, 2);
+    let yields = (0..msgs.len()).map(|_| if eager { rng.below(3) } else { 3 }).collect();
+    Plan { follower: msgs, acts, delays, restart: rng.chance(1, 2), yields }
 }
 
 pub(crate) fn generate(seed: u64, run: u64, _tier: Tier) -> Plan {
@@ -122,7 +128,7 @@ pub(crate) fn generate(seed: u64, run: u64, _tier: Tier) -> Plan {
     }
     let reorder = rng.chance(4, 5);
     let delays = (0..n).map(|_| if reorder { rng.below(6) } else { 0 }).collect();
-    Plan { follower: vec![], acts, delays, restart: rng.chance(1, 2) }
+    Plan { follower: vec![], acts, delays, restart: rng.chance(1, 2), yields: vec![] }
 }
 
 type ActFuture<'a> = std::pin::Pin<Box<dyn std::future::Future<Output = crate::server_error::ServerResult<(u64, crate::action::ClusterActionResult)>> + 'a>>;
@@ -228,7 +234,7 @@ async fn run_follower(plan: &Plan, dir: &str, msgs: &[LeaderMsg], use_delays: bo
     let mut appended = 0u64;
     let mut committed = 0u64;
     let mut results = vec![];
-    for m in msgs {
+    for (k, m) in msgs.iter().enumerate() {
         let req = match m {
             LeaderMsg::Append { first, n } => {
                 let entries: Vec<(u64, Vec<u8>)> = (*first..first + n).filter(|i| *i <= total).map(|i| (i, agdb::AgdbSerialize::serialize(&to_cluster_action(&plan.acts[i as usize - 1])))).collect();
@@ -242,7 +248,7 @@ async fn run_follower(plan: &Plan, dir: &str, msgs: &[LeaderMsg], use_delays: bo
         };
         let resp = s.cluster.raft.write().await.request(&req).await;
         results.push(Ok::<u64, String>(serde_json::to_value(&resp).map(|v| v["result"].to_string().len() as u64).unwrap_or(0)).and(Ok(0)));
-        for _ in 0..3 {
+        for _ in 0..(if use_delays { plan.yields.get(k).copied().unwrap_or(3) } else { 3 }) {
             tokio::task::yield_now().await;
         }
     }
